@@ -668,6 +668,60 @@ impl C06 {
                             "extra": files_to_json(&d.extra), "missing": d.missing, "rules_idx": d.rules_idx, "data_idx": d.data_idx}})
     }
 
+    /// The generator draws expectations blindly, so nearly every case mismatches. Before the
+    /// scenario is used, most expectations are aligned with what `validate` reports for the
+    /// case's input against the first rules file (three in four; the rest stay as drawn, and
+    /// misspelt statuses stay misspelt), and the test files are written again. Part of scenario
+    /// construction: the replay file carries the final cases and files.
+    fn align_expectations(&self, w: &mut Work, scn: &mut Scn6, seed: u64, rep: &mut Report) {
+        if scn.rules.is_empty() || scn.cases.is_empty() {
+            return;
+        }
+        let mut r = Rng::stream(seed, "align");
+        let mut changed = false;
+        for ci in 0..scn.cases.len() {
+            w.write_file(&FileSpec { rel: "obs/one_input.json".into(), bytes: doc::render(&scn.cases[ci].input, DocFmt::JsonCompact).into_bytes(), mtime_ns: 0 });
+            let (vc, vo, _e) = self.run1(w, &sv(&["cfn-guard", "validate", "-r", &format!("@/{}", scn.rules[0]), "-d", "@/obs/one_input.json", "--structured", "-o", "json", "-S", "none"]), &None, rep);
+            if !(vc == "exit:0" || vc == "exit:19") {
+                continue;
+            }
+            let repv = match serde_json::from_slice::<Value>(&vo).ok().and_then(|v| v.as_array().and_then(|a| a.first().cloned())) {
+                Some(v) => v,
+                None => continue,
+            };
+            let names = |k: &str| -> Vec<String> { repv.get(k).and_then(|a| a.as_array()).map(|a| a.iter().filter_map(|x| x.as_str().map(String::from)).collect()).unwrap_or_default() };
+            let failed: Vec<String> = repv.get("not_compliant").and_then(|a| a.as_array()).map(|a| a.iter().filter_map(|e| e.get("Rule").and_then(|r| r.get("name")).and_then(|n| n.as_str()).map(String::from)).collect()).unwrap_or_default();
+            let passed = names("compliant");
+            let skipped = names("not_applicable");
+            for (name, want) in scn.cases[ci].expect.iter_mut() {
+                if !matches!(want.as_str(), "PASS" | "FAIL" | "SKIP") {
+                    continue;
+                }
+                let actual = if failed.contains(name) { "FAIL" } else if passed.contains(name) { "PASS" } else if skipped.contains(name) { "SKIP" } else { continue };
+                if r.chance(3, 4) && want != actual {
+                    *want = actual.to_string();
+                    changed = true;
+                }
+            }
+        }
+        if !changed {
+            return;
+        }
+        rep.count("gen.expectations_aligned", 1);
+        let test_files = scn.test_files.clone();
+        for (rel, bucket) in &test_files {
+            if let Some(b) = bucket {
+                let cs: Vec<TestCase> = b.iter().map(|i| scn.cases[*i].clone()).collect();
+                let bytes = tests_text(&cs);
+                for target in [rel.clone(), rel.replace("tests/", "dl/tests/r0_"), rel.replace("tests/", "dl/tests/r1_")] {
+                    if let Some(f) = scn.files.iter_mut().find(|f| f.rel == target) {
+                        f.bytes = bytes.clone();
+                    }
+                }
+            }
+        }
+    }
+
     fn check_one(&self, w: &mut Work, scn: &Scn6, d: &Dlv, rep: &mut Report) -> Option<(String, String)> {
         w.materialise(&scn.files);
         let obs = self.observe(w, scn, rep);
@@ -739,7 +793,9 @@ impl Check for C06 {
     fn run_scenario(&self, w: &mut Work, base_seed: u64, n: u64, tier: Tier) -> Report {
         let mut rep = Report::new(n);
         let seed = derive(base_seed, "C06", n);
-        let (_wl, scn) = self.gen(seed, &mut rep);
+        let (_wl, mut scn) = self.gen(seed, &mut rep);
+        w.materialise(&scn.files);
+        self.align_expectations(w, &mut scn, seed, &mut rep);
         w.materialise(&scn.files);
         let obs = self.observe(w, &scn, &mut rep);
         for c in &obs.rules {
